@@ -48,6 +48,10 @@ EpochOk(ev, u, i, k) ==
         /\ ev[j].vuid = u
         /\ (Has(ev[i].items[k], "peer") => ev[j].vsetuid = ev[i].items[k].peer)
         /\ ev[j].vsummary = "echo " \o u
+  (* what is started is a run of the command: a report "not run" is for a task whose own earlier runs may still be going (C12), *)
+  (* never for one all of whose earlier starts the daemon has seen end, whatever other tasks do or did                        *)
+  /\ \A j \in S : ev[j].norun => \E s \in 1..(j - 1) : /\ ev[s].e = "Spawn" /\ ev[s].uid = u
+                                                      /\ (Failed(ev[s]) \/ ~\E x \in (s + 1)..(j - 1) : ev[x].e = "Deliver" /\ ev[x].k = "chld" /\ ev[x].pid = ev[s].pid)
   (* a task with no future occurrence is never run *)
   /\ (F = <<>> => S = {})
   (* never zero: whenever the daemon has caught up, every occurrence that came due has been followed by a run *)
